@@ -140,6 +140,18 @@ def equiv(args):
     d = os.path.join(ROOT, 'equiv', sid)
     meta = json.load(open(os.path.join(d, 'meta.json')))
     checks = [a for a in args[1:] if a.startswith('C')]
+    if '--tests' in args:
+        scr = '/tmp/scrt_%s' % sid
+        shutil.rmtree(scr, ignore_errors=True)
+        rc, o = sh('rsync -a --exclude target /repo/ %s/ && git -C %s checkout -q -- . && git -C %s apply %s' % (scr, scr, scr, os.path.join(d, 'patch.diff')))
+        assert rc == 0, o
+        ok, n, tail = tests_pass(scr)
+        shutil.rmtree(scr, ignore_errors=True)
+        meta['pinned_tests_pass'] = ok
+        print('%s pinned tests: %s (%d passed)' % (sid, ok, n), flush=True)
+        if not ok:
+            print(tail)
+            return 1
     run_isolated(sid, d, meta, checks, tier)
     bad = [c for c in checks if meta['checks'][c]['exit'] != 0]
     if bad:
